@@ -139,7 +139,7 @@ func checkC01(c *km.Ctx) {
 		if rule != "R-C04-2" && rule != "R-C04-3" && rule != "R-C04-4" {
 			return "", false
 		}
-		if strings.Contains(fn, "getAuthInfoFromJWT") || strings.Contains(fn, "checkAuth") || strings.Contains(construct, "authInfoJWT") || strings.Contains(fn, "parseVerifiedAuthJWT") {
+		if c04CurrentType == KMD+".authInfoJWT" {
 			return "R-C01-5", true
 		}
 		return "", false
